@@ -43,6 +43,9 @@ func ruleGoError(w *World, r *RuleResult) {
 		return
 	}
 	classify := func(cond ssa.Value) string { // "sys", "traps" or ""
+		if tv, bits, _, ok := w.systemTest(cond); ok && tv == ssa.Value(f.Params[0]) && bits == 3 {
+			return "sys"
+		}
 		bo, ok := cond.(*ssa.BinOp)
 		if !ok || (bo.Op != token.NEQ && bo.Op != token.EQL) {
 			return ""
@@ -87,7 +90,11 @@ func ruleGoError(w *World, r *RuleResult) {
 				continue
 			}
 			val := d.Val
-			if d.Cond.(*ssa.BinOp).Op == token.EQL {
+			if _, _, tms, ok := w.systemTest(d.Cond); ok {
+				if !tms {
+					val = !val
+				}
+			} else if d.Cond.(*ssa.BinOp).Op == token.EQL {
 				val = !val
 			}
 			facts[fmt.Sprintf("%s=%v", c, val)] = true
@@ -583,6 +590,11 @@ func ruleSurfaceErrors(w *World, r *RuleResult) {
 								if c, ok := x.(*ssa.Call); ok && isWrapper(c) {
 									continue
 								}
+								// a helper's out-parameter that every caller points at a local scratch value is
+								// not the operation's destination
+								if w.scratchParam(f, e.Loc.Root.Param) {
+									continue
+								}
 								// replacing the destination by the shared NaN (the failure path's clean-up) hides nothing
 								if c, ok := x.(*ssa.Call); ok && len(c.Common().Args) > 0 && w.nanWholeWrite(c, basePtr(c.Common().Args[0])) {
 									continue
@@ -660,4 +672,25 @@ func (w *World) returnsValue(rt *ssa.Return, v ssa.Value) bool {
 		}
 	}
 	return false
+}
+
+// scratchParam: parameter idx of the unexported function f receives, at every call site, a pointer to a
+// local variable of the caller (a scratch value), never the caller's own parameters.
+func (w *World) scratchParam(f *ssa.Function, idx int) bool {
+	if f.Object() != nil && f.Object().Exported() || w.addressTaken(f) {
+		return false
+	}
+	sites := w.allCallsTo(w.shortName(f))
+	if len(sites) == 0 {
+		return false
+	}
+	for _, s := range sites {
+		if idx >= len(s.Common().Args) {
+			return false
+		}
+		if _, local := basePtr(s.Common().Args[idx]).(*ssa.Alloc); !local {
+			return false
+		}
+	}
+	return true
 }
